@@ -38,7 +38,8 @@ func (prop) Rule() string {
 	return "cases: 2-3 real secp256k1 keys; honest records from the real NewAddress (ip4/ip6/dns/p2p underlays, network ids 0,1,10,2^63,2^64-1); then every kind of single-field mutation " +
 		"(bit flips in underlay / overlay / signature incl. the recovery byte, truncation, appended/prepended bytes, moving 1..8 bytes across the underlay/overlay boundary in both directions, ECDSA-malleated signature, " +
 		"fields taken from another honest record, another network id) and a smaller stream of raw garbage records (empty fields, 64/66-byte signatures, unparsable underlays); " +
-		"each record goes through ParseAddress, handshake.parseCheckAck (verif hook) and routetab.saveUnderlay (verif hook, then the address book is inspected). " +
+		"each record goes through ParseAddress, handshake.parseCheckAck (verif hook) and routetab.saveUnderlay (verif hook, then the address book is inspected); " +
+		"save2 sends a mutant and an honest record in ONE two-entry list (both orders) through saveUnderlay and reports what the book holds under each overlay (model: saveUnderlay on the list, last write wins); par verifies two records concurrently (8 goroutines x 400) against the sequential verdicts. " +
 		"Fixed cases first (own record, each single-field mutation, boundary move, malleated signature). Non-trivial: >=1 honest record and >=1 mutated record parsed; distinct by op-list hash."
 }
 
@@ -131,6 +132,18 @@ func (prop) Gen(r *core.Rand, tier string) []core.Case {
 			}
 			muts++
 			c.Ops = append(c.Ops, three(d, nid)...)
+			// the mutant next to an honest record in ONE underlay list (both orders), sometimes verified concurrently
+			if r.Chance(35) {
+				h := r.Intn(nk)
+				if r.Bool() {
+					c.Ops = append(c.Ops, fmt.Sprintf("save2 %d %d %s", h, d, nid))
+				} else {
+					c.Ops = append(c.Ops, fmt.Sprintf("save2 %d %d %s", d, h, nid))
+				}
+			}
+			if r.Chance(4) {
+				c.Ops = append(c.Ops, fmt.Sprintf("par %d %d %s", r.Intn(nk), d, nid))
+			}
 		}
 		c.NT = muts > 0
 		cs = append(cs, c)
@@ -371,42 +384,74 @@ func (rn *runner) Step(ctx *core.Ctx, op []string) string {
 		if sa == nil || sb == nil {
 			return "noslot"
 		}
-		verdict := func(sl *slotT) bool { // the primitives' own verdict on one record (as in parse/ack/save)
-			if _, err := ma.NewMultiaddrBytes(sl.u); err != nil {
-				return false
+		var toks []string
+		verdict := func(sl *slotT, tag string) bool { // the primitives' own verdict on one record (as in parse/ack/save)
+			data := signData(sl.u, sl.o, nid)
+			recov, authentic := "none", false
+			if pk, err := crypto.Recover(sl.sig, data); err == nil && pk != nil {
+				if ov, err := crypto.NewOverlayAddress(*pk, nid); err == nil {
+					recov = core.Hex(ov.Bytes())
+					authentic = bytes.Equal(ov.Bytes(), sl.o)
+				}
 			}
-			pk, err := crypto.Recover(sl.sig, signData(sl.u, sl.o, nid))
-			if err != nil || pk == nil {
-				return false
-			}
-			ov, err := crypto.NewOverlayAddress(*pk, nid)
-			return err == nil && bytes.Equal(ov.Bytes(), sl.o)
+			_, uerr := ma.NewMultiaddrBytes(sl.u)
+			toks = append(toks, "data"+tag+"="+core.Hex(data), "rec"+tag+"="+recov, "uok"+tag+"="+core.B(uerr == nil))
+			return authentic && uerr == nil
 		}
-		va, vb := verdict(sa), verdict(sb)
+		va, vb := verdict(sa, "A"), verdict(sb, "B")
+		if op[0] == "save2" {
+			ctx.Annotate(toks...)
+		}
 		if op[0] == "save2" {
 			// one underlay response carrying TWO entries: each entry stands for itself — what is stored under an
 			// overlay is that entry's own record, and only if it is authentic
 			ab := addressbook.New(mockstate.NewStateStore())
 			routetab.VerifSaveUnderlay(ab, nid, noop, []*rpb.UnderlayResp{{Dest: sa.o, Underlay: sa.u, Signature: sa.sig}, {Dest: sb.o, Underlay: sb.u, Signature: sb.sig}})
-			for i, e := range []struct {
-				sl *slotT
-				v  bool
-			}{{sa, va}, {sb, vb}} {
-				if bytes.Equal(sa.o, sb.o) && i == 0 && vb {
-					continue // same overlay twice: the later authentic entry may have replaced the first
-				}
-				got, err := ab.Get(boson.NewAddress(e.sl.o))
-				stored := err == nil && got != nil
+			held := func(o []byte) string {
+				got, err := ab.Get(boson.NewAddress(o))
 				switch {
-				case stored && !(bytes.Equal(got.Underlay.Bytes(), e.sl.u) && bytes.Equal(got.Signature, e.sl.sig)) && !(bytes.Equal(sa.o, sb.o) && bytes.Equal(got.Underlay.Bytes(), sa.u) && va):
-					ctx.Fail("save2-foreign-record-stored", "entry %d of a two-entry underlay list: the address book holds ANOTHER record under its overlay %x", i, e.sl.o)
-				case stored && !e.v:
-					ctx.Fail("save2-accepted-unauthentic", "entry %d of a two-entry underlay list is stored although it is not authentic", i)
-				case !stored && e.v:
-					ctx.Fail("save2-own-record-rejected", "authentic entry %d of a two-entry underlay list is not stored", i)
+				case err != nil || got == nil:
+					return "none"
+				case bytes.Equal(got.Overlay.Bytes(), sa.o) && bytes.Equal(got.Underlay.Bytes(), sa.u) && bytes.Equal(got.Signature, sa.sig):
+					return "A"
+				case bytes.Equal(got.Overlay.Bytes(), sb.o) && bytes.Equal(got.Underlay.Bytes(), sb.u) && bytes.Equal(got.Signature, sb.sig):
+					return "B"
+				}
+				return "other"
+			}
+			// expected book: the entries one after the other, each standing for itself, a later authentic entry for the
+			// same overlay replacing an earlier one
+			exp := map[string]string{}
+			if va {
+				exp[string(sa.o)] = "A"
+			}
+			if vb {
+				lbl := "B"
+				if bytes.Equal(sa.o, sb.o) && bytes.Equal(sa.u, sb.u) && bytes.Equal(sa.sig, sb.sig) {
+					lbl = "A" // the same record twice
+				}
+				exp[string(sb.o)] = lbl
+			}
+			for i, o := range [][]byte{sa.o, sb.o} {
+				want, got := exp[string(o)], held(o)
+				if want == "" {
+					want = "none"
+				}
+				if got == want {
+					continue
+				}
+				switch {
+				case got == "other" || (got == "A" && !bytes.Equal(o, sa.o)) || (got == "B" && !bytes.Equal(o, sb.o)):
+					ctx.Fail("save2-foreign-record-stored", "two-entry underlay list: under the overlay of entry %d the address book holds a record of ANOTHER overlay (%s)", i, got)
+				case (got == "A" && !va) || (got == "B" && !vb):
+					ctx.Fail("save2-accepted-unauthentic", "two-entry underlay list: the unauthentic entry %s is stored", got)
+				case got == "none":
+					ctx.Fail("save2-own-record-rejected", "two-entry underlay list: nothing stored under the overlay of entry %d, expected record %s", i, want)
+				default:
+					ctx.Fail("save2-book-differs", "two-entry underlay list: overlay of entry %d holds %s, expected %s", i, got, want)
 				}
 			}
-			return "done"
+			return "a=" + held(sa.o) + " b=" + held(sb.o)
 		}
 		// par: the two records are verified concurrently, many times; every single verdict must be the sequential one
 		var wrongA, wrongB int64
